@@ -66,7 +66,7 @@ def fmtCbs (c : List (List S)) : String := "|".intercalate (c.map fun l => ",".i
 
 def finish (st : St) : Bool × Bool × List String :=
   let evs := st.sax.reverse
-  let doc : LcDoc := ⟨st.root, st.insts.reverse.map fun i => { i with entries := i.entries.reverse }⟩
+  let doc : LcDoc := ⟨st.root, st.insts.reverse.map fun i => { i with entries := i.entries.reverse }, []⟩
   let lastChange : S := "LastChange".toList
   -- the implementation's observation: further callbacks = all but the final one for LastChange itself
   let endsOk := st.raised || st.cbs.getLast? == some [lastChange]
